@@ -179,11 +179,17 @@ func Verif_C14_HSet() {
 	f := vr.Tok("f")
 	var v string
 	var want c14Field
-	if vr.Choose("vnum", 2) == 1 {
+	switch vr.Choose("vnum", 3) {
+	case 1:
 		n := vr.Int("vn")
 		v = strconv.Itoa(n)
 		want = c14Field{name: f, kind: hvInt, n: n}
-	} else {
+	case 2:
+		// integers that need more than 53 significant bits, written as a client types them
+		n := []int{9007199254740993, 1234567890123456789, 9223372036854775807, -9223372036854775808, -9007199254740995}[vr.Choose("vwide", 5)]
+		v = strconv.Itoa(n)
+		want = c14Field{name: f, kind: hvInt, n: n}
+	default:
 		v = vr.Tok("v")
 		want = c14Field{name: f, kind: hvStr, s: v}
 	}
